@@ -54,21 +54,21 @@ func (e *Event) String() string {
 
 // OpRec records the execution of one program operation.
 type OpRec struct {
-	Task   int // harness task index (-1 prelude, -2 epilogue)
-	Sim    int // simulator task id of the executing goroutine
-	Idx    int
-	Op     *Op
-	Inv    int // global sequence at invoke
-	Ret    int // global sequence at return (0 = did not return)
-	InvNow time.Duration
-	RetNow time.Duration
-	Ptr    uintptr // identity of the returned / operated object
-	Obj    interface{}
-	Panic  string
-	PanicRT bool // the panic value is a runtime.Error (nil dereference, index out of range, ...)
+	Task     int // harness task index (-1 prelude, -2 epilogue)
+	Sim      int // simulator task id of the executing goroutine
+	Idx      int
+	Op       *Op
+	Inv      int // global sequence at invoke
+	Ret      int // global sequence at return (0 = did not return)
+	InvNow   time.Duration
+	RetNow   time.Duration
+	Ptr      uintptr // identity of the returned / operated object
+	Obj      interface{}
+	Panic    string
+	PanicRT  bool // the panic value is a runtime.Error (nil dereference, index out of range, ...)
 	PanicVal interface{}
-	Err    string
-	Extra  interface{}
+	Err      string
+	Extra    interface{}
 }
 
 // Log is the totally ordered history of one run.
